@@ -327,6 +327,8 @@ pub fn run_c05(args: &Args, tier: &str, seed: u64) -> Report {
             ("tokens", _) => 11,
             ("bytes12", "thorough") => 7,
             ("bytes12", _) => 41,
+            ("chains", "thorough") => 1,
+            ("chains", _) => 3,
             ("mutations", "thorough") => 4,
             ("mutations", _) => 9,
             _ => 1,
@@ -461,7 +463,13 @@ fn c06_payload(rng: &mut Rng, idx: u64, tier: &str) -> Vec<u8> {
         }
         _ => {
             let n = if idx % 1024 == 7 {
-                tier_pick(tier, 600_000, 4_200_000)
+                // beyond the power-of-two sizes an implementation limit would sit at (2^20; thorough: 2^22, 2^24)
+                let k = (idx / 1024) % 3;
+                if tier == "thorough" {
+                    [4_200_000, 1_100_000, if idx % 8192 == 7 { 17_000_000 } else { 2_300_000 }][k as usize]
+                } else {
+                    [1_100_000, 600_000, 2_300_000][k as usize]
+                }
             } else if idx % 64 == 7 {
                 600_000
             } else {
